@@ -1,1 +1,413 @@
-(* C12 stub: to be written *)
+(* C12 — proofs about the simulate loop, acquisition times and modify()
+   (model: Model/Run.v).  All statements are for every sequence (list). *)
+From Coq Require Import List ZArith Lia Bool QArith Qcanon Ring.
+From EPG Require Import Scalar State Ops ListLemmas Run.
+Import ListNotations.
+
+Lemma qc_pos_spec (d : Qc) : qc_pos d = true <-> (0 < d)%Qc.
+Proof.
+  unfold qc_pos, Qclt, Qlt. simpl. rewrite Z.ltb_lt. lia.
+Qed.
+
+Lemma qsum_app (l1 l2 : list Qc) : qsum (l1 ++ l2) = (qsum l1 + qsum l2)%Qc.
+Proof. induction l1 as [|x t IH]; simpl; [ring | rewrite IH; ring]. Qed.
+
+(* [lo] <= first element <= second <= ... *)
+Fixpoint sorted_from (lo : Qc) (l : list Qc) : Prop :=
+  match l with [] => True | x :: t => (lo <= x)%Qc /\ sorted_from x t end.
+
+Lemma sorted_from_weaken lo lo' l : (lo' <= lo)%Qc -> sorted_from lo l -> sorted_from lo' l.
+Proof.
+  destruct l as [|x t]; simpl; auto. intros H [H1 H2]; split; auto.
+  now apply Qcle_trans with lo.
+Qed.
+
+Lemma qc_le_add (t d : Qc) : (0 <= d)%Qc -> (t <= t + d)%Qc.
+Proof.
+  intros H. replace t with (t + 0)%Qc at 1 by ring.
+  apply Qcplus_le_compat; [apply Qcle_refl | exact H].
+Qed.
+
+Section RunProofs.
+Variable S : ScalOps.
+Hypothesis L : ScalLaws S.
+Add Ring Kr : (k_ring S L).
+Variable par : Type.
+Variable mkT : par -> par -> op S.
+Variable mkE : Qc -> par -> par -> par -> op S.
+Variable mkP : Qc -> par -> op S.
+Variable pscale : par -> par -> par.
+Variable is_one : par -> bool.
+Variable pbig pzero : par.
+
+Notation item := (item S par).
+Notation tree := (tree S par).
+Notation probe := (probe S).
+Notation den := (den S par mkT mkE mkP).
+Notation sim := (sim S par mkT mkE mkP).
+Notation simulate_model := (simulate_model S par mkT mkE mkP).
+Notation att_item := (att_item S par pscale is_one).
+Notation evol_of := (evol_of S par pbig pzero).
+Notation modifier := (modifier S par pscale is_one pbig pzero).
+Notation modify_go := (modify_go S par pscale is_one pbig pzero).
+Notation modify_model := (modify_model S par pscale is_one pbig pzero).
+Notation insert_E := (insert_E S par pscale is_one pbig pzero).
+Notation lookup := (lookup S par).
+
+(* ------------------------------------------------------------------ specification vocabulary *)
+Definition count_probes (seq : list item) : nat := length (filter is_probe seq).
+
+(* the j-th probe occurrence (j = 0, 1, ...) *)
+Fixpoint nth_probe (seq : list item) (j : nat) : option probe :=
+  match seq with
+  | [] => None
+  | IOp _ _ _ :: t => nth_probe t j
+  | IProbe _ p _ :: t => match j with O => Some p | Datatypes.S j' => nth_probe t j' end
+  end.
+
+(* the operators that precede the j-th probe occurrence *)
+Fixpoint ops_before (seq : list item) (j : nat) : list (op S) :=
+  match seq with
+  | [] => []
+  | IOp _ x _ :: t => den x :: ops_before t j
+  | IProbe _ _ _ :: t => match j with O => [] | Datatypes.S j' => ops_before t j' end
+  end.
+
+(* sum of the durations of all items up to and including the j-th probe occurrence *)
+Fixpoint dur_upto (seq : list item) (j : nat) : Qc :=
+  match seq with
+  | [] => Q2Qc 0
+  | IOp _ _ d :: t => d + dur_upto t j
+  | IProbe _ _ d :: t => match j with O => d | Datatypes.S j' => d + dur_upto t j' end
+  end.
+
+(* all operators of a sequence, all durations *)
+Fixpoint ops_of (seq : list item) : list (op S) :=
+  match seq with
+  | [] => []
+  | IOp _ x _ :: t => den x :: ops_of t
+  | IProbe _ _ _ :: t => ops_of t
+  end.
+Definition total_dur (seq : list item) : Qc := qsum (map dur seq).
+
+(* what is recorded for probe p (in-sequence) under override entry pb on batch b *)
+Definition recorded (p : probe) (pb : option probe) (b : bstate S) : value S :=
+  ppost p (pacq (match pb with Some q => q | None => p end) b).
+
+(* ------------------------------------------------------------------ batch = independent systems *)
+Lemma brun_cons o ops (b : bstate S) : brun (o :: ops) b = brun ops (bapply o b).
+Proof. reflexivity. Qed.
+
+Lemma brun_app ops1 ops2 (b : bstate S) : brun (ops1 ++ ops2) b = brun ops2 (brun ops1 b).
+Proof. unfold brun. apply fold_left_app. Qed.
+
+Lemma brun_map ops (b : bstate S) : brun ops b = map (run ops) b.
+Proof.
+  revert b. induction ops as [|o t IH]; intros b.
+  - simpl. now rewrite map_id.
+  - rewrite brun_cons, IH. unfold bapply. rewrite map_map. reflexivity.
+Qed.
+
+(* ------------------------------------------------------------------ count, order, snapshot *)
+Lemma sim_lengths seq ov b tic :
+  length (fst (sim seq ov b tic)) = count_probes seq /\
+  length (snd (sim seq ov b tic)) = count_probes seq.
+Proof.
+  revert b tic. induction seq as [|i t IH]; intros b tic; simpl; auto.
+  destruct i as [n x d|n p d]; simpl.
+  - apply IH.
+  - destruct (IH b (tic + d)%Qc) as [H1 H2]. unfold count_probes in *. simpl. now rewrite H1, H2.
+Qed.
+
+Lemma sim_row seq : forall ov b tic j p,
+  nth_probe seq j = Some p ->
+  nth j (fst (sim seq ov b tic)) [] = row_of p ov (brun (ops_before seq j) b).
+Proof.
+  induction seq as [|i t IH]; intros ov b tic j p H; simpl in *; [discriminate|].
+  destruct i as [n x d|n q d]; simpl.
+  - rewrite brun_cons. now apply IH.
+  - destruct j as [|j'].
+    + inversion H; subst. reflexivity.
+    + now apply IH.
+Qed.
+
+Lemma nth_probe_some seq j : (j < count_probes seq)%nat -> exists p, nth_probe seq j = Some p.
+Proof.
+  revert j. induction seq as [|i t IH]; intros j H; unfold count_probes in *; simpl in *; [lia|].
+  destruct i as [n x d|n q d]; simpl in *.
+  - now apply IH.
+  - destruct j as [|j']; [eauto | apply IH; lia].
+Qed.
+
+(* composition: running seq1 ++ seq2 records what seq1 records, then what seq2 records from the
+   state and the clock seq1 leaves behind (snapshot semantics: later items change nothing recorded) *)
+Lemma sim_app seq1 seq2 : forall ov b tic,
+  sim (seq1 ++ seq2) ov b tic =
+  (fst (sim seq1 ov b tic) ++ fst (sim seq2 ov (brun (ops_of seq1) b) (tic + total_dur seq1)%Qc),
+   snd (sim seq1 ov b tic) ++ snd (sim seq2 ov (brun (ops_of seq1) b) (tic + total_dur seq1)%Qc)).
+Proof.
+  induction seq1 as [|i t IH]; intros ov b tic.
+  - simpl. unfold total_dur; simpl. replace (tic + Q2Qc 0)%Qc with tic by ring.
+    now destruct (sim seq2 ov b tic).
+  - destruct i as [n x d|n q d]; simpl.
+    + rewrite IH. rewrite brun_cons. unfold total_dur; simpl.
+      now replace (tic + d + qsum (map dur t))%Qc with (tic + (d + qsum (map dur t)))%Qc by ring.
+    + rewrite IH. simpl. unfold total_dur; simpl.
+      now replace (tic + d + qsum (map dur t))%Qc with (tic + (d + qsum (map dur t)))%Qc by ring.
+Qed.
+
+Lemma snapshot_prefix seq rest ov b tic :
+  firstn (count_probes seq) (fst (sim (seq ++ rest) ov b tic)) = fst (sim seq ov b tic).
+Proof.
+  rewrite sim_app. simpl.
+  destruct (sim_lengths seq ov b tic) as [H _]. rewrite <- H.
+  rewrite firstn_app, Nat.sub_diag, firstn_all. simpl. apply app_nil_r.
+Qed.
+
+(* ------------------------------------------------------------------ times *)
+Lemma sim_times_adc seq : forall ov b tic, snd (sim seq ov b tic) = adc_times_from seq tic.
+Proof.
+  induction seq as [|i t IH]; intros ov b tic; simpl; auto.
+  destruct i as [n x d|n q d]; simpl; [apply IH | now rewrite IH].
+Qed.
+
+Lemma adc_time_nth seq : forall tic j p,
+  nth_probe seq j = Some p ->
+  nth j (adc_times_from seq tic) (Q2Qc 0) = (tic + dur_upto seq j)%Qc.
+Proof.
+  induction seq as [|i t IH]; intros tic j p H; simpl in *; [discriminate|].
+  destruct i as [n x d|n q d]; simpl.
+  - rewrite (IH _ _ _ H). ring.
+  - destruct j as [|j']; simpl; [reflexivity|]. rewrite (IH _ _ _ H). ring.
+Qed.
+
+Lemma adc_times_sorted seq : forall tic,
+  (forall i, In i seq -> (0 <= dur i)%Qc) -> sorted_from tic (adc_times_from seq tic).
+Proof.
+  induction seq as [|i t IH]; intros tic H; simpl; auto.
+  assert (Hi : (0 <= dur i)%Qc) by (apply H; now left).
+  assert (Ht : forall i', In i' t -> (0 <= dur i')%Qc) by (intros; apply H; now right).
+  destruct (is_probe i).
+  - simpl. split; [now apply qc_le_add | now apply IH].
+  - apply sorted_from_weaken with (tic + dur i)%Qc; [now apply qc_le_add | now apply IH].
+Qed.
+
+(* ------------------------------------------------------------------ override *)
+Lemma sim_times_override seq ov ov' b b' tic : snd (sim seq ov b tic) = snd (sim seq ov' b' tic).
+Proof. now rewrite !sim_times_adc. Qed.
+
+Lemma row_of_override (p : probe) (ov : overrides S) (b : bstate S) :
+  ov <> [] -> row_of p ov b = map (fun pb => recorded p pb b) ov.
+Proof. destruct ov; [congruence | reflexivity]. Qed.
+
+Lemma row_of_plain (p : probe) (b : bstate S) : row_of p [] b = [recorded p None b].
+Proof. reflexivity. Qed.
+
+(* ------------------------------------------------------------------ phase, weights, reduce *)
+Lemma bcast2_scalar_r (f : S -> S -> S) (v : value S) (c : S) :
+  bcast2 f v [c] = map (fun u => f u c) v.
+Proof. destruct v as [|a [|a' t]]; reflexivity. Qed.
+
+Lemma bcast2_same_len (f : S -> S -> S) (x y : value S) :
+  length x = length y -> bcast2 f x y = map (fun uv => f (fst uv) (snd uv)) (combine x y).
+Proof.
+  destruct x as [|a [|a' t]]; destruct y as [|c [|c' r]]; simpl; intros H; try discriminate; reflexivity.
+Qed.
+
+Lemma adc_phase_scalar (p pb : probe) (ph : S) (b : bstate S) :
+  pphasor p = Some [ph] ->
+  acquire pb (ppost p) b = map (fun v => (v * ph)%K) (pacq pb b).
+Proof. intros H. unfold acquire, ppost. rewrite H. apply bcast2_scalar_r. Qed.
+
+Lemma adc_phase_none (p pb : probe) (b : bstate S) :
+  pphasor p = None -> acquire pb (ppost p) b = pacq pb b.
+Proof. intros H. unfold acquire, ppost. now rewrite H. Qed.
+
+(* a unit-modulus phasor changes the phase only: |recorded|^2 = |quantity|^2 *)
+Lemma phasor_modulus (ph v : S) :
+  (ph * kconj ph)%K = k1 -> ((v * ph) * kconj (v * ph))%K = (v * kconj v)%K.
+Proof.
+  intros H. rewrite (conj_mul S L).
+  replace (v * ph * (kconj v * kconj ph))%K with ((v * kconj v) * (ph * kconj ph))%K by ring.
+  rewrite H. ring.
+Qed.
+
+Definition wsum (x w : value S) : S := ksum (map (fun uv => (fst uv * snd uv)%K) (combine x w)).
+
+Lemma pacq_weights_reduce (p : probe) (w : value S) (b : bstate S) :
+  pweights p = Some w -> length w = length b -> preduce p <> RFalse ->
+  pacq p b = [wsum (map (qeval (pq p)) b) w].
+Proof.
+  intros Hw Hl Hr. unfold pacq, reduces. rewrite Hw.
+  rewrite bcast2_same_len by (now rewrite map_length).
+  destruct (preduce p); try congruence; reflexivity.
+Qed.
+
+Lemma pacq_weights_noreduce (p : probe) (w : value S) (b : bstate S) :
+  pweights p = Some w -> length w = length b -> preduce p = RFalse ->
+  pacq p b = map (fun uv => (fst uv * snd uv)%K) (combine (map (qeval (pq p)) b) w).
+Proof.
+  intros Hw Hl Hr. unfold pacq, reduces. rewrite Hw, Hr.
+  now rewrite bcast2_same_len by (now rewrite map_length).
+Qed.
+
+Lemma ksum_scale (l : value S) (c : S) : ksum (map (fun u => (u * c)%K) l) = (ksum l * c)%K.
+Proof. induction l as [|x t IH]; simpl; [ring | rewrite IH; ring]. Qed.
+
+Lemma pacq_scalar_weight (p : probe) (c : S) (b : bstate S) :
+  pweights p = Some [c] -> preduce p <> RFalse ->
+  pacq p b = [(ksum (map (qeval (pq p)) b) * c)%K].
+Proof.
+  intros Hw Hr. unfold pacq, reduces. rewrite Hw, bcast2_scalar_r, ksum_scale.
+  destruct (preduce p); try congruence; reflexivity.
+Qed.
+
+Lemma pacq_plain (p : probe) (b : bstate S) :
+  pweights p = None -> reduces p = false -> pacq p b = map (qeval (pq p)) b.
+Proof. intros Hw Hr. unfold pacq. now rewrite Hw, Hr. Qed.
+
+Lemma pacq_sum (p : probe) (b : bstate S) :
+  pweights p = None -> reduces p = true -> pacq p b = [ksum (map (qeval (pq p)) b)].
+Proof. intros Hw Hr. unfold pacq. now rewrite Hw, Hr. Qed.
+
+(* ------------------------------------------------------------------ trees, MultiOperator durations *)
+Fixpoint tree_ind' (Pr : tree -> Prop) (HL : forall i, Pr (Leaf i))
+    (HN : forall m l, List.Forall Pr l -> Pr (Node m l)) (t : tree) : Pr t :=
+  match t with
+  | Leaf i => HL i
+  | Node m l => HN m l ((fix go (l : list tree) : List.Forall Pr l :=
+                           match l with
+                           | [] => List.Forall_nil Pr
+                           | x :: r => List.Forall_cons x (tree_ind' Pr HL HN x) (go r)
+                           end) l)
+  end.
+
+Lemma tree_dur_flat (t : tree) : tree_dur t = total_dur (flat t).
+Proof.
+  induction t as [i|m l IH] using tree_ind'; unfold total_dur; simpl.
+  - ring.
+  - induction l as [|x r IHr]; simpl; auto.
+    inversion IH; subst. rewrite map_app, qsum_app, IHr by assumption.
+    rewrite H1. reflexivity.
+Qed.
+
+Lemma flat_seq_leaves (s : list item) : flat_seq (map (@Leaf S par) s) = s.
+Proof. induction s as [|i t IH]; simpl; auto. unfold flat_seq in IH. now rewrite IH. Qed.
+
+Lemma flat_seq_app (l1 l2 : list tree) : flat_seq (l1 ++ l2) = flat_seq l1 ++ flat_seq l2.
+Proof. apply flat_map_app. Qed.
+
+(* ------------------------------------------------------------------ modify *)
+Definition ids_consistent (seq : list item) : Prop :=
+  forall i j, In i seq -> In j seq -> item_id i = item_id j -> i = j.
+
+Lemma att_item_dur P i : dur (att_item P i) = dur i.
+Proof.
+  destruct i as [n x d|n p d]; simpl; auto.
+  destruct x; simpl; auto. destruct (matt P); auto. destruct (is_one p); auto.
+Qed.
+
+Lemma att_item_probe P i : is_probe (att_item P i) = is_probe i.
+Proof.
+  destruct i as [n x d|n p d]; simpl; auto.
+  destruct x; simpl; auto. destruct (matt P); auto. destruct (is_one p); auto.
+Qed.
+
+Definition piece (P : mparams par) (i : item) : list item :=
+  att_item P i ::
+    (if qc_pos (dur i) then
+       match evol_of P (dur i) with Some e => [IOp (eid (item_id i)) e (Q2Qc 0)] | None => [] end
+     else []).
+
+Lemma modifier_flat P i : flat (modifier P i) = piece P i.
+Proof.
+  unfold modifier, piece. rewrite att_item_dur.
+  destruct (qc_pos (dur i)); auto. destruct (evol_of P (dur i)); reflexivity.
+Qed.
+
+Lemma insert_E_pieces seq P : insert_E seq P = flat_map (piece P) seq.
+Proof. reflexivity. Qed.
+
+Lemma modify_go_flat P (whole : list item) (Hc : ids_consistent whole) :
+  forall seq memo,
+    (forall i, In i seq -> In i whole) ->
+    (forall n tr, lookup n memo = Some tr -> exists i', In i' whole /\ item_id i' = n /\ tr = modifier P i') ->
+    flat_seq (modify_go P seq memo) = flat_map (piece P) seq.
+Proof.
+  induction seq as [|i t IH]; intros memo Hin Hmemo; simpl; auto.
+  assert (Hi : In i whole) by (apply Hin; now left).
+  assert (Ht : forall i', In i' t -> In i' whole) by (intros; apply Hin; now right).
+  destruct (lookup (item_id i) memo) as [tr|] eqn:E.
+  - destruct (Hmemo _ _ E) as [i' [Hi' [Hid ->]]].
+    assert (i' = i) as -> by (apply Hc; auto).
+    unfold flat_seq in *. simpl. rewrite modifier_flat. f_equal. now apply IH.
+  - unfold flat_seq in *. simpl. rewrite modifier_flat. f_equal. apply IH; auto.
+    intros n tr. simpl. destruct (Nat.eqb_spec n (item_id i)) as [->|Hn].
+    + intros H; inversion H; subst. exists i; auto.
+    + apply Hmemo.
+Qed.
+
+Lemma no_params_piece P i : has_params P = false -> piece P i = [i].
+Proof.
+  unfold has_params, piece, att_item, evol_of. destruct P as [a b g k]; simpl.
+  destruct a, b, g, k; try discriminate. intros _.
+  destruct (qc_pos (dur i)); destruct i as [n x d|n p d]; try destruct x; reflexivity.
+Qed.
+
+Lemma flat_map_singleton {A} (l : list A) : flat_map (fun x => [x]) l = l.
+Proof. induction l; simpl; congruence. Qed.
+
+Lemma modify_flat (l : list tree) P :
+  ids_consistent (flat_seq l) -> flat_seq (modify_model l P) = insert_E (flat_seq l) P.
+Proof.
+  intros Hc. unfold modify_model. rewrite insert_E_pieces.
+  destruct (has_params P) eqn:E.
+  - apply (modify_go_flat P (flat_seq l) Hc); auto. intros n tr H; discriminate.
+  - rewrite (flat_map_ext (piece P) (fun x => [x])) by (intros; now apply no_params_piece).
+    now rewrite flat_map_singleton.
+Qed.
+
+Lemma modify_equiv (l : list tree) P ov b :
+  ids_consistent (flat_seq l) ->
+  simulate_model (modify_model l P) ov b = simulate_model (map (@Leaf S par) (insert_E (flat_seq l) P)) ov b.
+Proof.
+  intros Hc. unfold Run.simulate_model. now rewrite (modify_flat l P Hc), flat_seq_leaves.
+Qed.
+
+Lemma insert_E_times seq P : forall tim, adc_times_from (insert_E seq P) tim = adc_times_from seq tim.
+Proof.
+  rewrite insert_E_pieces.
+  induction seq as [|i t IH]; intros tim; simpl; auto.
+  rewrite att_item_dur, att_item_probe.
+  assert (Hrest : forall tim', adc_times_from
+            ((if qc_pos (dur i) then
+                match evol_of P (dur i) with Some e => [IOp (eid (item_id i)) e (Q2Qc 0)] | None => [] end
+              else []) ++ flat_map (piece P) t) tim' = adc_times_from t tim').
+  { intros tim'. destruct (qc_pos (dur i)); [destruct (evol_of P (dur i))|]; simpl; auto.
+    replace (tim' + Q2Qc 0)%Qc with tim' by ring. apply IH. }
+  destruct (is_probe i); now rewrite Hrest.
+Qed.
+
+Lemma modify_times (l : list tree) P :
+  ids_consistent (flat_seq l) -> get_adc_times (modify_model l P) = get_adc_times l.
+Proof.
+  intros Hc. unfold get_adc_times, adc_times. rewrite (modify_flat l P Hc). apply insert_E_times.
+Qed.
+
+(* each element modify() returns keeps the duration of the operator it replaces *)
+Lemma modifier_dur P i : tree_dur (modifier P i) = dur i.
+Proof. rewrite tree_dur_flat, modifier_flat. unfold total_dur, piece. simpl. rewrite att_item_dur.
+  destruct (qc_pos (dur i)); [destruct (evol_of P (dur i))|]; simpl; ring.
+Qed.
+
+(* the operators the modified sequence applies: the original ones (att-scaled), each one of positive
+   duration followed by its evolution *)
+Lemma insert_E_probes seq P : count_probes (insert_E seq P) = count_probes seq.
+Proof.
+  rewrite insert_E_pieces. unfold count_probes.
+  induction seq as [|i t IH]; simpl; auto.
+  rewrite filter_app, app_length, IH, att_item_probe.
+  destruct (qc_pos (dur i)); [destruct (evol_of P (dur i))|]; simpl; destruct (is_probe i); simpl; lia.
+Qed.
+
+End RunProofs.
